@@ -58,6 +58,7 @@ type Out struct {
 	GoMaxProcs int            `json:"gomaxprocs"`
 	Harness    string         `json:"harness,omitempty"`
 	Sample     string         `json:"sample,omitempty"`
+	Dump       []string       `json:"dump,omitempty"` // only with C09_DUMP=1 (development aid)
 }
 
 // ---------------------------------------------------------------------------------------
@@ -409,12 +410,11 @@ func sweepShapes(g int) [][]object.Object {
 	gs := fmt.Sprint(g)
 	return [][]object.Object{
 		{},
-		{s("ab" + gs)}, {i(g + 2)}, {object.NewFloat(2.5)}, {object.NewList([]object.Object{s("b"), s("a" + gs)})},
-		{object.NewMap(map[string]object.Object{"k": i(g)})}, {object.True}, {bs("x" + gs)},
-		{s("ab" + gs), s("b")}, {s("a,b" + gs), s(",")}, {i(g + 2), i(3)}, {object.NewFloat(2.5), i(2)},
+		{s("ab" + gs)}, {i(g + 2)}, {object.NewFloat(2.5)}, {object.NewList([]object.Object{s("b"), s("a" + gs)})}, {bs("x" + gs)},
+		{s("ab" + gs), s("b")}, {s("a,b" + gs), s(",")}, {i(g + 2), i(3)},
 		{object.NewList([]object.Object{s("b"), s("a" + gs)}), s(",")}, {s("ab" + gs), i(2)}, {s("%d|%v"), i(g)},
-		{s("[a-z]+"), s("ab" + gs)}, {s("2006-01-02"), s(fmt.Sprintf("2024-01-1%d", g%9))}, {bs("xyx" + gs), bs("x")},
-		{s("ab" + gs), s("b"), s("c")}, {s("ab" + gs), i(0), i(1)}, {s("%s-%d"), s("x"), i(g)}, {bs("xyx"), bs("x"), bs("z" + gs)},
+		{s("[a-z]+"), s("ab" + gs)}, {bs("xyx" + gs), bs("x")},
+		{s("ab" + gs), s("b"), s("c")}, {s("ab" + gs), i(0), i(1)}, {bs("xyx"), bs("x"), bs("z" + gs)},
 	}
 }
 
@@ -889,6 +889,18 @@ func worker(kind string, data json.RawMessage) any {
 		}
 		sort.Strings(paths)
 		o.Sample = fmt.Sprintf("n=%d mode=%s jobs=%d first job %s, goroutine 0 -> %s", N, c.Mode, len(jobs), jobs[0].path, clip(strings.Join(conc[0][0], " | "), 300))
+	}
+	if os.Getenv("C09_DUMP") != "" {
+		for j, jb := range jobs {
+			if jb.kind == "sweep" && os.Getenv("C09_DUMP") != "all" {
+				continue
+			}
+			for i, l := range conc[0][j] {
+				if os.Getenv("C09_DUMP") == "all" || strings.Contains(l, "panic") || strings.HasPrefix(l, "ERR:") || strings.HasPrefix(l, "error:") {
+					o.Dump = append(o.Dump, fmt.Sprintf("%s #%d: %s", jb.path, i, l))
+				}
+			}
+		}
 	}
 	_ = os.RemoveAll(dir)
 	return o
